@@ -430,6 +430,8 @@ class P:
             return ('array', es)
         if v == 'if':
             return self.ifexpr()
+        if v == 'match':
+            return self.matchexpr()
         if v == '{':
             return self.block()
         if k == 'id':
@@ -464,6 +466,40 @@ class P:
                 return ('struct', segs[-1], fs)
             return ('path', segs)
         raise TranslateError('unexpected token %r' % (v,))
+
+    def matchexpr(self):
+        """match SCRUTINEE { PAT [| PAT]* => EXPR, .. }  with patterns: enum variant paths, integer literals, `_`"""
+        self.eat('match')
+        scrut = self.expr(nostruct=True)
+        self.eat('{')
+        arms = []
+        while self.peek() != '}':
+            pats = []
+            while True:
+                if self.peek() == '_':
+                    self.eat()
+                    pats.append(('pwild',))
+                elif self.kind() == 'int':
+                    pats.append(self.primary(False))
+                elif self.kind() == 'id':
+                    segs = [self.eat()]
+                    while self.peek() == '::':
+                        self.eat()
+                        segs.append(self.eat())
+                    pats.append(('path', segs))
+                else:
+                    raise TranslateError('match pattern %r' % (self.peek(),))
+                if self.peek() == '|':
+                    self.eat()
+                    continue
+                break
+            self.eat('=>')
+            e = self.expr()
+            if self.peek() == ',':
+                self.eat()
+            arms.append((pats, e))
+        self.eat('}')
+        return ('match', scrut, arms)
 
     def ifexpr(self):
         self.eat('if')
@@ -523,7 +559,7 @@ class P:
                 body = self.block()
                 stmts.append(('while', c, body))
                 continue
-            if v in ('loop', 'match'):
+            if v in ('loop',):
                 raise TranslateError('%s not supported' % v)
             if v in ('assert!', 'debug_assert!', 'assert_eq!', 'debug_assert_eq!', 'assert_ne!', 'debug_assert_ne!'):
                 # assert!(cond, "message", args..): the condition becomes part of `_ok`; the message is dropped
@@ -604,6 +640,28 @@ def parse_struct(item):
         if not p.at_end():
             p.eat(',')
     return fields
+
+def parse_enum(item):
+    """{variant: discriminant} of a fieldless `enum Name { A = 1, B, .. }` item."""
+    p = P(item.toks)
+    out = {}
+    nxt = 0
+    while not p.at_end():
+        if p.peek() == '#':
+            p.eat()
+            p.i = match_close(p.t, p.i) + 1
+            continue
+        name = p.eat()
+        if p.peek() == '=':
+            p.eat()
+            nxt = const_eval(p.expr(), {})
+        elif p.peek() in ('(', '{'):
+            raise TranslateError('enum variant %s carries data' % name)
+        out[name] = nxt
+        nxt += 1
+        if not p.at_end():
+            p.eat(',')
+    return out
 
 def parse_sig(p):
     name = p.eat()
@@ -921,6 +979,8 @@ class FnEmitter:
             if isinstance(want, tuple):
                 wants = want[1]
             return SV(items=[self.ev(x, env, w) for x, w in zip(e[1], wants)])
+        if k == 'match':
+            return self.matchexpr(e, env, want)
         if k == 'objcall':
             _, T, m, recv, args = e
             x = self.ev(recv, env)
@@ -1320,6 +1380,75 @@ class FnEmitter:
                 return SV('%s = true' % proj, 'bool', [tmp])
             return SV(proj, t, [tmp])
         return build(rty)
+
+    def matchexpr(self, e, env, want):
+        """`match` on a fieldless enum (its discriminant) or an integer: a chain of `if`s; the last arm of a match
+        that lists every variant (or `_`) is the final `else`."""
+        _, scrut, arms = e
+        x = self.ev(scrut, env, None)
+        if x.agg or x.ty not in INT_TYPES:
+            raise TranslateError('match on a value of type %r' % (x.ty,))
+        def pat_values(pt):
+            if pt[0] == 'int':
+                return [pt[1]]
+            if pt[0] == 'path':
+                segs = pt[1]
+                if len(segs) != 2:
+                    raise TranslateError('match pattern %r' % (segs,))
+                en = self.selftype if segs[0] == 'Self' else segs[0]
+                if en not in self.mod.enums:
+                    raise TranslateError('match pattern of unregistered enum %s' % en)
+                variants = self.mod.enum_variants(en)
+                if segs[1] not in variants:
+                    raise TranslateError('enum %s has no variant %s' % (en, segs[1]))
+                return [variants[segs[1]]], en
+            raise TranslateError('match pattern')
+        conds = []          # (list of values or None for `_`, arm expr)
+        enum_name = None
+        for pats, ae in arms:
+            vals = []
+            wild = False
+            for pt in pats:
+                if pt[0] == 'pwild':
+                    wild = True
+                else:
+                    r = pat_values(pt)
+                    if isinstance(r, tuple):
+                        vals += r[0]
+                        enum_name = r[1]
+                    else:
+                        vals += r
+            conds.append((None if wild else vals, ae))
+        covered = [v for vals, _ in conds if vals is not None for v in vals]
+        exhaustive = any(vals is None for vals, _ in conds) or \
+            (enum_name is not None and set(covered) == set(self.mod.enum_variants(enum_name).values()))
+        if not exhaustive:
+            raise TranslateError('match that is not exhaustive over a registered enum')
+        xb = self.bind('m', x)
+        # evaluate arms right to left; every arm's side conditions are guarded by its test
+        res = None
+        for idx in range(len(conds) - 1, -1, -1):
+            vals, ae = conds[idx]
+            last = idx == len(conds) - 1 or vals is None
+            test = None if vals is None else ' ∨ '.join('%s = %d' % (xb.e, v) for v in vals)
+            prev = ['¬ (%s)' % (' ∨ '.join('%s = %d' % (xb.e, v) for v in vs)) for vs, _ in conds[:idx] if vs is not None]
+            guard = prev + ([test] if (test is not None and not last) else [])
+            for g in guard:
+                self.guards.append((g, xb.fv))
+            try:
+                a = self.ev(ae, dict(env), want if want is not None else (res.ty if res is not None and not res.agg else None))
+            finally:
+                for g in guard:
+                    self.guards.pop()
+            if a.agg:
+                raise TranslateError('match arm of aggregate type')
+            if res is None:
+                res = a
+            else:
+                if a.ty != res.ty:
+                    raise TranslateError('match arms of different type %s / %s' % (a.ty, res.ty))
+                res = self.merge(SV(test, 'bool', xb.fv), a, res)
+        return res
 
     def ifexpr(self, e, env, want):
         _, c, th, el = e
@@ -2052,6 +2181,12 @@ class ModuleCtx:
         if it is None:
             raise TranslateError('definition of struct %s not found' % name)
         return parse_struct(it)
+
+    def enum_variants(self, name):
+        it = self.find('enum', lambda k: k == 'enum ' + name)
+        if it is None:
+            raise TranslateError('definition of enum %s not found' % name)
+        return parse_enum(it)
 
     def field_type(self, t, f):
         if not isinstance(t, str):
